@@ -120,6 +120,18 @@ def check_vel(ev, meta):
     return bad
 
 
+def check_velfn(ev, meta):
+    v, p = ev["velocity"]["value"], ev["plain"]["value"]
+    bad = []
+    for i, k in enumerate(("precision", "recall", "f-measure")):
+        if float(v[i]) > float(p[i]) + 1e-9:
+            bad.append(("velocity<=plain[%s]" % k,
+                        "with velocity %s = %r exceeds plain transcription %r" % (
+                            k, v[i], p[i])))
+    meta["changed"] = any(float(v[i]) < float(p[i]) for i in (0, 1))
+    return bad
+
+
 def check_strict(ev, meta):
     s, n = ev["strict"]["value"], ev["nonstrict"]["value"]
     bad = []
@@ -133,6 +145,7 @@ def check_strict(ev, meta):
 
 
 CHECKERS = {"chain": check_chain, "nested": check_nested, "vel": check_vel,
+            "velfn": check_velfn,
             "strict": check_strict}
 
 
@@ -239,6 +252,12 @@ def instances(r):
                              "comps": [0, 1, 2]},
                     "nt": ("strict", n["ref_iv"], n["est_iv"])})
         ekw = {k: v for k, v in base.items() if v is not None}
+        if r.random() < 0.6:
+            # non-default tolerances, deliberately unequal to one another
+            ekw.update(tasks.draw_params(r, {
+                "onset_tolerance": [1 / 8, 1 / 16, 1 / 32, 0.05],
+                "offset_min_tolerance": [1 / 64, 1 / 32, 1 / 8, 0.05],
+                "pitch_tolerance": [25.0, 100.0, 50.0]}, 0.7))
         out.append({"kind": "nested", "site": "transcription.evaluate",
                     "calls": [("eval", "transcription.evaluate", a4, ekw)],
                     "meta": {"fn": "transcription.evaluate"},
@@ -247,14 +266,21 @@ def instances(r):
                     "calls": [("velocity", "transcription_velocity.evaluate", a6, ekw),
                               ("plain", "transcription.evaluate", a4, ekw)],
                     "meta": {}, "nt": ("velplain", n["ref_iv"], n["est_iv"], repr(ekw))})
+        fkw = dict(ekw, offset_ratio=base["offset_ratio"])
+        out.append({"kind": "velfn", "site": "transcription_velocity.precision_recall_f1_overlap",
+                    "calls": [("velocity",
+                               "transcription_velocity.precision_recall_f1_overlap", a6, fkw),
+                              ("plain", "transcription.precision_recall_f1_overlap", a4,
+                               fkw)],
+                    "meta": {}, "nt": ("velplain-fn", n["ref_iv"], n["est_iv"], repr(fkw))})
     al = tasks.gen_alignment(r)
     out.append(chain("alignment.percentage_correct", (al["ref"], al["est"]), {}, "window",
                      [0.0, 1 / 64, 1 / 16, 0.25, 0.3, 0.3125, 1.0], [None],
                      ("al", al["ref"], al["est"])))
     t = tasks.gen_tempo(r)
     out.append(chain("tempo.detection", (t["ref"], t["w"], t["est"]), {}, "tol",
-                     [0.0, 0.04, 0.0625, 0.08, 0.125, 0.5, 1.0], [0, 1, 2],
-                     ("tempo", t["ref"], t["est"], t["w"])))
+                     [0.0, 0.001, 0.002, 0.004, 0.04, 0.0625, 0.08, 0.125, 0.5, 1.0],
+                     [0, 1, 2], ("tempo", t["ref"], t["est"], t["w"])))
     out.append({"kind": "nested", "site": "tempo.evaluate",
                 "calls": [("eval", "tempo.evaluate", (t["ref"], t["w"], t["est"]), {})],
                 "meta": {"fn": "tempo.evaluate"}, "nt": ("nest-tempo", t["ref"], t["est"])})
